@@ -61,3 +61,31 @@ Print Assumptions c17_add_chunk_covered.
 Example c17_example :
   In (reg2bin 14 5 16380 16390) (reg2bins 14 5 16385 16385) /\ reg2bin 14 5 16380 16390 = 585.
 Proof. vm_compute. split; [|reflexivity]. tauto. Qed.
+
+(* ---- index files: write then read gives back the same index (BAI, gzi) ---- *)
+From NV Require Import Base.LE Index.Layout Index.LayoutProofs.
+
+(* BAI: any structurally valid index (bins with distinct ids other than the metadata pseudo-bin
+   37450, any chunk lists, optional metadata pseudo-bin, any linear offsets, optional unplaced
+   count; all values within their field widths) reads back equal, including the metadata
+   pseudo-bin and the unplaced count. *)
+Theorem c17_bai_roundtrip : forall i, bai_ok i -> read_bai (w_bai i) = Some i.
+Proof. exact bai_roundtrip. Qed.
+Print Assumptions c17_bai_roundtrip.
+
+Theorem c17_gzi_roundtrip :
+  forall idx, N.of_nat (length idx) < 18446744073709551616 -> Forall chunk_ok idx ->
+    read_gzi (w_gzi idx) = Some idx.
+Proof. exact gzi_roundtrip. Qed.
+Print Assumptions c17_gzi_roundtrip.
+
+Theorem c17_gzi_trailing_rejected :
+  forall idx b rest, N.of_nat (length idx) < 18446744073709551616 -> Forall chunk_ok idx ->
+    read_gzi (w_gzi idx ++ b :: rest) = None.
+Proof. exact gzi_trailing_rejected. Qed.
+Print Assumptions c17_gzi_trailing_rejected.
+
+Example c17_bai_example :
+  let i := mkbai [mkbref [(4681, [(10, 20)]); (0, [])] (Some (mkmeta 10 20 1 0)) [10; 10]] (Some 3) in
+  read_bai (w_bai i) = Some i.
+Proof. vm_compute. reflexivity. Qed.
